@@ -108,7 +108,7 @@ pub fn result_json(meta: &RunMeta, acc: &Acc) -> J {
     let mut viols = vec![];
     let mut other: BTreeMap<String, u64> = BTreeMap::new();
     for ((prop, sig), (v, n)) in &acc.violations {
-        if *prop == meta.property {
+        if *prop == meta.property || std::env::var("VFS_VERIF_ALL_PROPS").is_ok() {
             viols.push(
                 J::obj()
                     .set("property", J::s(*prop))
